@@ -98,6 +98,12 @@ func (w *World) verifyFunc(key string) (g *Gen) {
 		a.applyUse(env, u, "true", key+"/entry")
 	}
 	a.computeMods()
+	if len(spec.EntryGhost) > 0 {
+		ectx := &blockCtx{reach: "true", st: st}
+		for _, gu := range spec.EntryGhost {
+			a.ghostAssign(ectx, env, gu)
+		}
+	}
 	a.run("true", st, args)
 	// anchors that never bound
 	for _, an := range spec.Anchors {
